@@ -1,6 +1,7 @@
 package main
 
 import (
+	"hash/fnv"
 	"bytes"
 	"context"
 	"fmt"
@@ -175,7 +176,7 @@ func solveAll(obls []*Obligation, dir string, timeoutS int, seed int, all bool, 
 			defer wg.Done()
 			defer func() { <-sem }()
 			q := o.decls.Query(o.Asms, o.Goal, o.GetVals)
-			file := filepath.Join(dir, fmt.Sprintf("%04d_%s.smt2", i, sanitize(o.Name)))
+			file := filepath.Join(dir, fmt.Sprintf("%04d_%s.smt2", i, fileBase(o.Name)))
 			o.Res = solve(q, file, timeoutS, seed, all)
 			if o.Res.Status == "unknown" && !all && o.Res.Solver == "none" {
 				// nobody answered within the quick budget (a loaded machine, or a hard goal): one
@@ -190,4 +191,16 @@ func solveAll(obls []*Obligation, dir string, timeoutS int, seed int, all bool, 
 		}(i, o)
 	}
 	wg.Wait()
+}
+
+// fileBase: a file-name-safe rendering of an obligation name. File names are limited to 255 bytes:
+// a long name keeps its head and gets a hash of the whole name.
+func fileBase(name string) string {
+	base := sanitize(name)
+	if len(base) > 180 {
+		h := fnv.New32a()
+		h.Write([]byte(name))
+		base = fmt.Sprintf("%s_%08x", base[:170], h.Sum32())
+	}
+	return base
 }
